@@ -77,7 +77,10 @@ def resolveId (name : String) : IxM (Option SymbolId) := do
   | none =>
     match c.symbolMap.findDef name with
     | some d => return some (.record d)
-    | none => return none
+    | none =>
+      match c.symbolMap.findDefset name with
+      | some d => return some (.defset d)
+      | none => return none
 
 /-- `IndexCtx::error` -/
 def error (range : Nat × Nat) (message : String) : IxM Unit := do
@@ -107,6 +110,8 @@ def currentDefmId : IxM (Option Nat) := do return (← get).scopes.currentDefmId
 
 def addRecord (r : Record) (isGlobal : Bool) : IxM Nat := modifySM fun sm => sm.addRecord r isGlobal
 def addAnonymousDef (r : Record) : IxM Nat := modifySM fun sm => sm.addAnonymousDef r
+def addMulticlassDef (r : Record) : IxM Nat := modifySM fun sm => sm.addMulticlassDef r
+def registerDefsetName (id : Nat) : IxM Unit := modifySM fun sm => ((), sm.registerDefsetName id)
 def addTemplateArgument (a : TemplateArgument) : IxM Nat := modifySM fun sm => sm.addTemplateArgument a
 def addRecordField (f : RecordField) : IxM Nat := modifySM fun sm => sm.addRecordField f
 def addVariable (v : Variable) : IxM Nat := modifySM fun sm => sm.addVariable v
